@@ -30,6 +30,10 @@ func ruleC07_shared(c *Ctx) {
 	c.R.Only("C09.4")
 	ruleC09_4(c)
 	c.R.Only()
+	// the number forms (a coordinate at the edge of a form must come back as itself) and the arc's dependence on
+	// the rotation through cos/sin of 2*pi*turns only (the Encoder normalises the rotation, a direct caller does not)
+	only(c, ruleC08_2, "C08.2")
+	only(c, ruleC06_8, "C06.8")
 }
 
 // destinationMethods lists the methods of ivg.Destination in a stable order.
